@@ -406,3 +406,50 @@ Proof.
   destruct (x =? c); [discriminate|apply IH].
 Qed.
 
+
+(* ---------- partition on a separator string ---------- *)
+
+Lemma partition_str_first sep a b :
+  sep <> [] ->
+  (forall a1 a2, a = a1 ++ a2 -> a2 <> [] -> startswith sep (a2 ++ sep ++ b) = false) ->
+  partition_str sep (a ++ sep ++ b) = (a, true, b).
+Proof.
+  intros Hs. induction a as [|x a IH]; intros Hn.
+  - cbn [app]. destruct sep as [|s0 sep]; [contradiction|]. cbn [app partition_str].
+    assert (E : startswith (s0 :: sep) (s0 :: sep ++ b) = true).
+    { clear. change (s0 :: sep ++ b) with ((s0 :: sep) ++ b). generalize (s0 :: sep). intros l.
+      induction l as [|y l IHl]; [reflexivity|]. cbn. now rewrite N.eqb_refl. }
+    rewrite E. f_equal. cbn [length skipn]. clear. induction sep as [|y l IHl]; [reflexivity|]. cbn. exact IHl.
+  - cbn [app partition_str].
+    assert (E0 : startswith sep ((x :: a) ++ sep ++ b) = false) by (apply (Hn [] (x :: a) eq_refl); discriminate).
+    cbn [app] in E0. rewrite E0.
+    rewrite IH; [reflexivity|]. intros a1 a2 E Hne. apply (Hn (x :: a1) a2); [now rewrite E|exact Hne].
+Qed.
+
+Lemma startswith_app p s : startswith p (p ++ s) = true.
+Proof. induction p as [|c p IH]; [reflexivity|]. cbn. now rewrite N.eqb_refl. Qed.
+
+Lemma endswith_app e x : endswith e (x ++ e) = true.
+Proof. unfold endswith. rewrite rev_app_distr. apply startswith_app. Qed.
+
+Lemma startswith_head_ne c p d s : c <> d -> startswith (c :: p) (d :: s) = false.
+Proof. intros H. cbn. apply N.eqb_neq in H. now rewrite H. Qed.
+
+(* the separator starts with a character that does not occur in [a] *)
+Lemma partition_str_nohead c sep a b : ~ In c a ->
+  partition_str (c :: sep) (a ++ (c :: sep) ++ b) = (a, true, b).
+Proof.
+  intros Hn. apply partition_str_first; [discriminate|].
+  intros a1 a2 E Hne. destruct a2 as [|d a2]; [contradiction|]. cbn [app].
+  apply startswith_head_ne. intros <-. apply Hn. rewrite E. apply in_or_app. right. now left.
+Qed.
+
+Lemma rpartition_str_nohead sep c a b : ~ In c b ->
+  rpartition_str (sep ++ [c]) (a ++ (sep ++ [c]) ++ b) = (a, true, b).
+Proof.
+  intros Hn. unfold rpartition_str. rewrite !rev_app_distr. cbn [rev app].
+  rewrite <- app_assoc.
+  replace (rev b ++ (c :: rev sep) ++ rev a) with (rev b ++ (c :: rev sep) ++ rev a) by reflexivity.
+  rewrite (partition_str_nohead c (rev sep) (rev b) (rev a)) by now rewrite <- in_rev.
+  now rewrite !rev_involutive.
+Qed.
